@@ -232,5 +232,5 @@ func TestC19(t *testing.T) {
 			}
 		}
 	}
-	c19Part.Run(s, hx.PerShard(hx.Pick(4800, 120000)))
+	c19Part.Run(s, hx.PerShard(hx.Pick(24000, 320000)))
 }
